@@ -625,12 +625,20 @@ func TestCallSequences(t *testing.T) {
 		nst := rapid.IntRange(2, 5).Draw(t, "nstmts")
 		var calls []*ncall
 		var b strings.Builder
+		// script variables spelled like the parameters: passing a parameter by name must not touch them
+		withVars := rapid.Bool().Draw(t, "scriptvars")
+		if withVars {
+			b.WriteString("a = 901\nb = 902\nc = 903\nd = 904\n")
+		}
 		for i := 0; i < nst; i++ {
 			c := genCall(2)
 			calls = append(calls, c)
 			fmt.Fprintf(&b, "x%d = ", i)
 			printCall(&b, c)
 			b.WriteString("\n")
+		}
+		if withVars {
+			b.WriteString("zz = show(a, b, c, d)\n")
 		}
 		src := b.String()
 		want := map[int][]string{}
@@ -683,7 +691,64 @@ func TestCallSequences(t *testing.T) {
 				Desc: runtimev2.FnDesc{Name: fmt.Sprintf("fn%d", f), Params: params},
 			}
 		}
+		var shown []string
+		showParams := []*runtimev2.Param{{Name: "v", Variable: true}}
+		fns["show"] = &runtimev2.Fn{
+			CallCheck: func(ctx *runtimev2.Task, e *ast.CallExpr) *errchain.PlError {
+				return runtimev2.CheckPassParam(ctx, e, showParams)
+			},
+			Call: func(ctx *runtimev2.Task, e *ast.CallExpr) *errchain.PlError {
+				v, err := runtimev2.GetParam(ctx, e, showParams, 0)
+				if err != nil {
+					return err
+				}
+				shown = append(shown, probe.Render(v))
+				ctx.Regs.ReturnAppend(runtimev2.V{V: int64(0), T: ast.Int})
+				return nil
+			},
+			Desc: runtimev2.FnDesc{Name: "show", Params: showParams},
+		}
 		rp := replay{Sig: strings.Join(sigs, "; "), Src: src}
+		// the same script with one call made unbindable (an unknown parameter name) is rejected at load, wherever the call sits
+		if len(calls) > 0 {
+			var all []*ncall
+			var collect func(c *ncall)
+			collect = func(c *ncall) {
+				all = append(all, c)
+				for _, a := range c.Args {
+					if a.Call != nil {
+						collect(a.Call)
+					}
+				}
+			}
+			for _, c := range calls {
+				collect(c)
+			}
+			victim := all[rapid.IntRange(0, len(all)-1).Draw(t, "victim")]
+			victim.Args = append(victim.Args, narg{Name: "zz_unknown", Lit: 1})
+			var bb strings.Builder
+			for i, c := range calls {
+				fmt.Fprintf(&bb, "x%d = ", i)
+				printCall(&bb, c)
+				bb.WriteString("\n")
+			}
+			bad := bb.String()
+			victim.Args = victim.Args[:len(victim.Args)-1]
+			// restore the recorded offsets
+			var rb strings.Builder
+			if withVars {
+				rb.WriteString("a = 901\nb = 902\nc = 903\nd = 904\n")
+			}
+			for i, c := range calls {
+				fmt.Fprintf(&rb, "x%d = ", i)
+				printCall(&rb, c)
+				rb.WriteString("\n")
+			}
+			if _, lerr, crash := impl.LoadV2("c19.p", bad, fns); lerr == nil || crash != nil {
+				rk.Fail(t, "sequences", replay{Sig: rp.Sig, Src: bad}, "a script with an unbindable call (unknown parameter name zz_unknown) was accepted at load (%v)\nfunctions: %s\nscript:\n%s", crash, rp.Sig, bad)
+			}
+			evid.Label("sequence/one-call-made-unbindable")
+		}
 		sc, lerr, crash := impl.LoadV2("c19.p", src, fns)
 		if crash != nil {
 			rk.Fail(t, "sequences", rp, "loading panicked: %s\nscript:\n%s", crash.Value, src)
@@ -716,6 +781,11 @@ func TestCallSequences(t *testing.T) {
 			}
 			if got := strings.Join(late, " | "); got != strings.Join(wlate, " | ") {
 				rk.Fail(t, "sequences", rp, "the values the call at offset %d received read [%s] at the end of the run, it was given [%s]\nfunctions: %s\nscript:\n%s", at, got, strings.Join(w, " | "), rp.Sig, src)
+			}
+		}
+		if withVars {
+			if len(shown) != 1 || shown[0] != "[i:901 i:902 i:903 i:904]" {
+				rk.Fail(t, "sequences", rp, "the script variables a, b, c, d read %v after the calls, they were set to 901..904 and never assigned again\nfunctions: %s\nscript:\n%s", shown, rp.Sig, src)
 			}
 		}
 		if len(immediate) != len(want) {
